@@ -26,9 +26,11 @@ parwait
 {
 echo "vector_int $BUILD/c02_main --only vector_int"
 echo "vector_tracked $BUILD/c02_main --only vector_tracked"
+echo "vector_3values $BUILD/c02_main --only vector_3values"
 echo "flat $BUILD/c02_main --only flat_"
 echo "portable_vector_int $BUILD/c02_twin --only vector_int"
 echo "portable_vector_tracked $BUILD/c02_twin --only vector_tracked"
+echo "portable_vector_3values $BUILD/c02_twin --only vector_3values"
 echo "compat_shims $BUILD/c02_shim"
 echo "flat_on_igris_vector $BUILD/c02_flatvec"
 } > $BUILD/runs.txt
